@@ -53,7 +53,13 @@ RecJudge judge_record(const CallView &cv, const RunResult &r, bool require_befor
     int hit = 0;
     for (auto d : mine_all) if (matches(d->bytes)) hit++;
     if (hit == 1 && (mine_all.size() == 1 || e.cfg.error_logging)) return j;
-    if (hit == 0) { j.v = bad("record-content", at + "sink " + e.sink + " received " + show(mine_all[0]->bytes, 200) + " ; expected " + show(e.records[0], 200)); return j; }
+    if (hit == 0) {
+        // for long records: the neighbourhood of the first difference from the closest acceptable text
+        const std::string &g = mine_all[0]->bytes; size_t best = 0, bi = 0;
+        for (size_t i = 0; i < e.records.size(); i++) { size_t k = 0; while (k < g.size() && k < e.records[i].size() && g[k] == e.records[i][k]) k++; if (k >= best) { best = k; bi = i; } }
+        size_t from = best > 60 ? best - 60 : 0;
+        j.v = bad("record-content", at + "sink " + e.sink + " received " + show(g, 200) + " ; expected " + show(e.records[0], 200) + (best > 150 ? " ; first difference at byte " + std::to_string(best) + ": got ..." + show(g.substr(from, 160), 160) + " expected ..." + show(e.records[bi].substr(from, 160), 160) : ""));
+        return j; }
     j.v = bad("record-count", at + std::to_string(mine_all.size()) + " records at " + e.sink + " (" + std::to_string(hit) + " of them equal to the expected one)");
     return j;
 }
